@@ -237,6 +237,7 @@ type Case struct {
 	Q    Req   `json:",omitempty"`
 	H    []Req `json:",omitempty"`
 	Conc int   `json:",omitempty"` // kind A: serve the history on this many goroutines
+	Wire bool  `json:",omitempty"` // kind R: through a real HTTP server and client (what the client really received)
 }
 
 // ---------------------------------------------------------------- probe handlers
@@ -257,12 +258,17 @@ type caseLog struct {
 	recSize int64
 }
 
-var cur *caseLog
+var (
+	cur   *caseLog
+	curMu sync.Mutex
+)
 
 func logf(e logEv) {
+	curMu.Lock()
 	if cur != nil {
 		cur.evs = append(cur.evs, e)
 	}
+	curMu.Unlock()
 }
 
 var body = []byte(strings.Repeat("x", 4096))
@@ -413,9 +419,11 @@ func (recorder) WrapResponseWriter(w http.ResponseWriter, st any) http.ResponseW
 func (recorder) OnRequestEnd(_ context.Context, st any, w http.ResponseWriter, pattern string) {
 	s, _ := st.(*state)
 	logf(logEv{kind: "E", label: pattern, wrapped: s != nil && s.wrapped != nil && w == s.wrapped})
+	curMu.Lock()
 	if ri, ok := w.(router.ResponseInfo); ok && cur != nil && !cur.recd {
 		cur.recd, cur.recSt, cur.recSize = true, ri.StatusCode(), ri.Size()
 	}
+	curMu.Unlock()
 }
 
 // ---------------------------------------------------------------- facts shipped to the model
@@ -536,7 +544,20 @@ func (l *lineB) prog(p Prog, libSize int) {
 // ---------------------------------------------------------------- kind R
 
 type renv struct {
-	r *router.Router
+	r   *router.Router
+	srv *httptest.Server
+}
+
+var wireClient = &http.Client{CheckRedirect: func(*http.Request, []*http.Request) error { return http.ErrUseLastResponse }}
+
+// wireOK: requests a real client can send unchanged and whose body net/http does not suppress
+func wireOK(q Req) bool {
+	switch q.Method {
+	case "GET", "POST", "PUT", "DELETE", "PATCH":
+	default:
+		return false
+	}
+	return strings.HasPrefix(q.Path, "/") && !strings.Contains(q.Path, "//") && !strings.ContainsAny(q.Path, "%*") && len(q.Path) < 200
 }
 
 var routers = map[string]*renv{}
@@ -568,23 +589,52 @@ func newRequest(q Req) *http.Request {
 func runR(id string, cs Case) string {
 	e := getRouter(cs.C)
 	cl := &caseLog{}
+	curMu.Lock()
 	cur = cl
-	rw := httptest.NewRecorder()
+	curMu.Unlock()
 	panicked := false
-	func() {
-		defer func() {
-			if r := recover(); r != nil {
-				panicked = true
-			}
+	code, size := 0, 0
+	if cs.Wire {
+		if e.srv == nil {
+			e.srv = httptest.NewServer(e.r)
+		}
+		req, err := http.NewRequest(cs.Q.Method, e.srv.URL+cs.Q.Path, nil)
+		if err != nil {
+			fmt.Fprintln(os.Stderr, "wire request:", err)
+			os.Exit(1)
+		}
+		req.Header.Set("X-Prog", cs.Q.Prog.header())
+		if cs.Q.Ver != "" {
+			req.Header.Set("X-API-Version", cs.Q.Ver)
+		}
+		resp, err := wireClient.Do(req)
+		if err != nil {
+			panicked = true // the server closed the connection: a panic escaped ServeHTTP
+		} else {
+			b, _ := io.ReadAll(resp.Body)
+			_ = resp.Body.Close()
+			code, size = resp.StatusCode, len(b)
+		}
+	} else {
+		rw := httptest.NewRecorder()
+		func() {
+			defer func() {
+				if r := recover(); r != nil {
+					panicked = true
+				}
+			}()
+			e.r.ServeHTTP(rw, newRequest(cs.Q))
 		}()
-		e.r.ServeHTTP(rw, newRequest(cs.Q))
-	}()
+		code, size = rw.Code, rw.Body.Len()
+	}
+	curMu.Lock()
 	cur = nil
+	curMu.Unlock()
 	f := predict(cs.C, cs.Q)
 	l := &lineB{hx.NewLine(id)}
 	l.Tok("R")
 	l.facts(f)
-	l.prog(cs.Q.Prog, rw.Body.Len())
+	l.prog(cs.Q.Prog, size)
 	l.Strs(patterns(cs.C))
 	l.Sep()
 	if panicked {
@@ -604,7 +654,7 @@ func runR(id string, cs Case) string {
 			l.Tok("E").Str(ev.label).Bool(ev.wrapped)
 		}
 	}
-	l.Nat(rw.Code).Nat(rw.Body.Len())
+	l.Nat(code).Nat(size)
 	l.Bool(cl.recd)
 	if cl.recd {
 		l.Nat(cl.recSt).I64(cl.recSize)
@@ -1031,6 +1081,10 @@ func main() {
 		i := 0
 		emitR := func(c Cfg, q Req) {
 			cs := Case{Kind: "R", C: c, Q: q}
+			if wireOK(q) && r.Chance(1, 8) {
+				cs.Wire = true
+				st.Count("wire(real server+client)")
+			}
 			st.Case(fmt.Sprintf("%+v", cs), count(st, c, q))
 			fmt.Fprintln(w, run(fmt.Sprintf("c08-%d-%d", a.Seed, i), cs))
 			i++
